@@ -24,7 +24,7 @@ class Runtime(RuntimeCheck):
 class Check(MacroCheck):
     prop = 'C19'
     theorems = ['C19_call_rendering', 'C19_error_names_call', 'C19_error_names_path', 'C19_error_names_pattern', 'C19_pattern_rendering',
-                'diagPositions_mem', 'C19_diagnostics_positions', 'C19_debug_inputs_positions', 'C19_source_ncalls']
+                'diagPositions_mem', 'C19_diagnostics_positions', 'C19_debug_inputs_positions', 'C19_source_ncalls', 'C19_mirrored_traits_keep_their_names']
     case_prefixes = ('__none__',)
     facts_of_interest = r'(debug |path=)'
     runtime = Runtime()
@@ -99,6 +99,36 @@ class Check(MacroCheck):
             path = engine.write_replay(self.prop, 'toolerror', p.stderr[-1500:], ["messages harness crashed"])
             rep.violation(path, "messages harness crashed", no_input=True)
         rep.coverage['message_cases'] = n
+        # exhausted single-use leaves of composite returns: the panic names the call as Trait::method()
+        ok, log = engine.build_harness(['outputs', 'mirrors'])
+        if not ok:
+            path = engine.write_replay(self.prop, 'build', log + '\n', ["harness/src/bin/outputs.rs / mirrors.rs no longer compile against /repo"])
+            rep.violation(path, "outputs / mirrors harness does not compile", no_input=True); return
+        po = subprocess.run([os.path.join(engine.HARNESS, 'target', 'debug', 'outputs')], capture_output=True, text=True, timeout=300)
+        recs = [re.match(r'^rec (\w+) path=(\w+) val=(\S+) panics=(\d+) named=(\d+) remembered=(\d+) first=(.*)$', l) for l in po.stdout.split('\n') if l.startswith('rec ')]
+        shown = 0
+        for m in [m for m in recs if m]:
+            if int(m.group(4)) != int(m.group(5)) and shown < 2:
+                shown += 1
+                path = engine.write_replay(self.prop, 'msg', m.group(0) + '\n', [f"property C19 violated by the real code: method OutT::{m.group(1)} configured through path `{m.group(2)}` with value {m.group(3)}: {m.group(4)} mock-induced panics, of which {m.group(5)} name the call as OutT::{m.group(1)}()",
+                                                                               f"first panic: {m.group(7)}", "replay: /verif/harness/target/debug/outputs | grep ^rec"])
+                rep.violation(path, f"panic about OutT::{m.group(1)} (exhausted single-use return {m.group(3)}) does not name the call: `{m.group(7)[:160]}`")
+        if po.returncode != 0 or not recs:
+            path = engine.write_replay(self.prop, 'toolerror', po.stderr[-1500:], ["outputs harness crashed"])
+            rep.violation(path, "outputs harness crashed", no_input=True)
+        # bundled mocks: an unmocked required method of a mirrored trait is named by the upstream trait's name
+        pm = subprocess.run([os.path.join(engine.HARNESS, 'target', 'debug', 'mirrors')], capture_output=True, text=True, timeout=300, env=dict(os.environ, MIRROR_CASES='0'))
+        names = [l.split('\t') for l in pm.stdout.split('\n') if l.startswith('case name.')]
+        for f in names:
+            got, want = f[1][len('mock='):], f[2][len('plain='):]
+            if got != want:
+                path = engine.write_replay(self.prop, 'msg', '\t'.join(f) + '\n', [f"property C19 violated by the real code: calling the unmocked required method {want} of a bundled mock on Unimock::new(()) panics with a message that names the call `{got}`", "replay: MIRROR_CASES=0 /verif/harness/target/debug/mirrors | grep name."])
+                rep.violation(path, f"bundled mock: the panic about {want} names it `{got}`")
+        if pm.returncode != 0 or not names:
+            path = engine.write_replay(self.prop, 'toolerror', pm.stderr[-1500:], ["mirrors harness crashed or printed no name cases"])
+            rep.violation(path, "mirrors harness crashed", no_input=True)
+        n += len(names) + len(recs)
+        rep.coverage['bundled_mock_name_cases'] = len(names)
         rep.coverage['evaluations'] = rep.coverage.get('evaluations', 0) + n
         rep.coverage['distinct_nontrivial'] = rep.coverage.get('distinct_nontrivial', 0) + sum(1 for r in rows if r[6] in ('debug', 'index'))
 
@@ -111,6 +141,19 @@ class Check(MacroCheck):
             rep.violation(path, "generated matching! sample does not compile", no_input=True); return
         tuples = 0; reported = 0
         by_id = {c.ident: c for c in cases}
+        # model-free oracle first: the reported positions are the positions whose sub-pattern rustc itself rejects (all argument types, the irregular-PartialEq type included)
+        from .c06 import NPOS
+        for k, (un, ordd, nat, diag) in real.items():
+            nps = NPOS.get(k, '').split(';'); rd = diag.split(';')
+            for i, (a, b) in enumerate(zip(rd, nps)):
+                if b == 'x' or i >= len(nat) or nat[i] == '1' or a == '-':
+                    continue
+                if a != b:
+                    text = gm.macro_text(by_id[k])
+                    path = engine.write_replay(self.prop, 'diag', f"matching!({text})\n", [
+                        f"property C19 violated by the real code: mismatch report of the guard-free single-alternative matching!({text}) on rejected domain tuple #{i} (method {by_id[k].method}): it lists positions [{a}], while the sub-patterns rejecting the actual values (rustc's own match / == / != per position) are [{b}]"])
+                    rep.violation(path, f"matching!({text}), tuple #{i}: mismatch report lists positions [{a}], sub-patterns rejecting (by rustc) are [{b}]"[:400])
+                    return
         for k, (un, ordd, nat, diag) in real.items():
             if k not in model:
                 continue
